@@ -34,7 +34,8 @@ use thiserror::Error as ThisError;
 pub enum FarewellError {
     /// Call results should be empty at the end of execution thanks to a execution invariant.
     #[error(
-        "after finishing execution of supplied AIR, there are some unprocessed call results: `{0:?}`, probably a wrong call_id used"
+        "after finishing execution of supplied AIR, there are some unprocessed call results: `{:?}`, probably a wrong call_id used",
+        .0.iter().collect::<std::collections::BTreeMap<_, _>>()
     )]
     UnprocessedCallResult(CallResults),
 }
